@@ -13,6 +13,9 @@ fn main() {
     // Generic setting
     println!("cargo:rerun-if-changed=build.rs");
 
+    // `nutype_verif` guards verification-only hooks; it is never set by this build script.
+    println!("cargo:rustc-check-cfg=cfg(nutype_verif)");
+
     // feature `error-in-core` landed in rust 1.81.0
     if matches!(version_meta.channel, Channel::Nightly) || version.minor >= 81 {
         println!("cargo:rustc-cfg=ERROR_IN_CORE");
